@@ -235,7 +235,8 @@ class Report:
         p = os.path.join(d, f"{name}.json")
         with open(p, "w") as fh:
             json.dump({"property": self.prop, "role": role, "replay": replay_obj}, fh, indent=1)
-        self.violations.append((role, p))
+        if p not in [x[1] for x in self.violations]:
+            self.violations.append((role, p))
         return "sat-violation"
 
     def finish(self):
